@@ -262,13 +262,13 @@ def assign : List ObjId → Nat → List (ObjId × ObjId)
   | [], _ => []
   | id :: rest, s => (id, (s, id.2)) :: assign rest (s + 1)
 
-theorem densePairs_eq (ids : List ObjId) (s : Nat) (acc : List (ObjId × ObjId)) (h : s + ids.length ≤ U32_MAXE) :
+theorem densePairs_eq (ids : List ObjId) (s : Nat) (acc : List (ObjId × ObjId)) (h : s + ids.length ≤ U32_MAXE + 1) :
     densePairs ids s acc = some (acc ++ denseSpec ids s, s + ids.length) := by
   induction ids generalizing s acc with
   | nil => simp [densePairs, denseSpec]
   | cons id rest ih =>
     simp only [List.length_cons] at h
-    have h1 : ¬ (s + 1 > U32_MAXE) := by omega
+    have h1 : ¬ (s > U32_MAXE) := by omega
     simp only [densePairs, h1, if_false]
     rw [ih (s + 1) _ (by omega)]
     simp only [denseSpec, List.length_cons]
